@@ -18,10 +18,10 @@
 
 namespace {
 
-enum { OP_ACQ = 1, OP_CALLOC, OP_REALLOC, OP_REL, OP_SEND, OP_RECV, OP_CHECKPOINT, OP_YIELD, OP_REALLOC_NULL, OP_QUERY, OP_DUMP, OP_BULK };
+enum { OP_ACQ = 1, OP_CALLOC, OP_REALLOC, OP_REL, OP_SEND, OP_RECV, OP_CHECKPOINT, OP_YIELD, OP_REALLOC_NULL, OP_QUERY, OP_DUMP, OP_BULK, OP_FOREIGN };
 static const int MAXW = 4;
 
-struct Block { uint8_t *p; size_t size; uint64_t tag; };
+struct Block { uint8_t *p; size_t size; uint64_t tag; bool tracked = true; }; // tracked = false: obtained from the wrapped allocator behind the tracer's back
 struct Worker { std::vector<Block> own, mailbox; bool finished = false; };
 
 struct Ctx {
@@ -80,16 +80,16 @@ void verify(const Block &b, const char *when) {
     long bad = pat::first_bad(b.p, b.size, b.tag);
     if (bad >= 0) sim::violation("c17:clobbered", "%s: live block of %zu bytes modified at offset %ld", when, b.size, bad);
 }
-Block place(Ctx &c, uint8_t *p, size_t size) {
-    Block b{p, size, c.next_tag++};
+Block place(Ctx &c, uint8_t *p, size_t size, bool tracked = true) {
+    Block b{p, size, c.next_tag++, tracked};
     pat::fill(p, size, b.tag);
     c.live[(uintptr_t)p] = b;
     return b;
 }
 
 void quiescent_check(Ctx &c, const char *where, bool dump) {
-    size_t want_bytes = 0, want_count = c.live.size();
-    for (auto &kv : c.live) { verify(kv.second, where); want_bytes += kv.second.size; }
+    size_t want_bytes = 0, want_count = 0;
+    for (auto &kv : c.live) { verify(kv.second, where); if (kv.second.tracked) { want_bytes += kv.second.size; want_count++; } }
     if (c.level == 0) { want_bytes = 0; want_count = 0; }
     size_t bytes = aws_mem_tracer_bytes(c.tr), count = aws_mem_tracer_count(c.tr);
     if (bytes != want_bytes)
@@ -110,7 +110,7 @@ void quiescent_check(Ctx &c, const char *where, bool dump) {
         if (c.level != 0 && want_bytes > 0) {
             if (!c.dump_begin || !c.dump_end) sim::violation("c17:dump", "%s: dump did not produce its begin/end markers", where);
             std::vector<size_t> want;
-            for (auto &kv : c.live) want.push_back(kv.second.size);
+            for (auto &kv : c.live) if (kv.second.tracked) want.push_back(kv.second.size);
             std::vector<size_t> got = c.dump_sizes;
             std::sort(want.begin(), want.end());
             std::sort(got.begin(), got.end());
@@ -147,6 +147,18 @@ void run_worker(Ctx &c, int idx) {
                 c.ops_done++;
                 break;
             }
+            case OP_FOREIGN: {
+                // The tracer may be installed midstream (memtrace.c: "it is possible for an allocation to not be tracked"): a block from
+                // the wrapped allocator itself is later resized or released through the tracer. It is not counted until a realloc through
+                // the tracer records its successor; its contents survive like anybody else's.
+                size_t n = (size_t)op.a; if (!n) n = 1;
+                uint8_t *p = (uint8_t *)aws_mem_acquire(c.parent, n);
+                check_new(c, p, n, "acquire (wrapped allocator, untracked)");
+                w.own.push_back(place(c, p, n, false));
+                sim::probe("block_obtained_behind_the_tracers_back");
+                c.ops_done++;
+                break;
+            }
             case OP_REALLOC_NULL: {
                 size_t n = (size_t)op.a; if (!n) n = 1;
                 void *p = nullptr;
@@ -176,6 +188,7 @@ void run_worker(Ctx &c, int idx) {
                 long bad = pat::first_bad(p, keep, b.tag);
                 if (bad >= 0) sim::violation("c17:realloc-lost", "realloc(%zu -> %zu): old contents not preserved at offset %ld", b.size, n, bad);
                 if (p == b.p) sim::probe("realloc_kept_address"); else sim::probe("realloc_moved");
+                if (!b.tracked) sim::probe("untracked_block_reallocated_through_tracer");
                 w.own[i] = place(c, (uint8_t *)p, n);
                 break;
             }
@@ -184,6 +197,7 @@ void run_worker(Ctx &c, int idx) {
                 size_t i = (size_t)op.a % w.own.size();
                 Block b = w.own[i];
                 verify(b, "before release");
+                if (!b.tracked) sim::probe("untracked_block_released_through_tracer");
                 c.live.erase((uintptr_t)b.p);
                 w.own.erase(w.own.begin() + (long)i);
                 aws_mem_release(c.tr, b.p);
@@ -363,7 +377,8 @@ void gen(uint64_t seed, int tier, sim::Plan &p) {
             uint64_t k = r.below(100);
             int64_t sz = r.chance(0.7) ? r.pick(sizes) : r.range(1, 300);
             if (r.chance(0.002)) sz = r.pick(std::vector<int64_t>{70000, 1 << 20}); // rare very large block
-            if (k < 28) { op.kind = OP_ACQ; op.a = sz; }
+            if (k < 3) { op.kind = OP_FOREIGN; op.a = sz; }
+            else if (k < 28) { op.kind = OP_ACQ; op.a = sz; }
             else if (k < 35) { op.kind = OP_CALLOC; op.a = r.pick(std::vector<int64_t>{1, 2, 4}); op.b = r.pick(std::vector<int64_t>{1, 8, 16, 32}); }
             else if (k < 55) { op.kind = OP_REALLOC; op.a = r.range(0, 1000); uint64_t m = r.below(10); op.b = m == 0 ? 0 : m < 3 ? -1 : (r.chance(0.6) ? r.pick(sizes) : r.range(1, 300)); }
             else if (k < 58) { op.kind = OP_REALLOC_NULL; op.a = sz; }
@@ -406,6 +421,7 @@ std::string op_text(const sim::Op &op) {
         case OP_YIELD: snprintf(b, sizeof b, "T%d: yield", op.thr); break;
         case OP_QUERY: snprintf(b, sizeof b, "T%d: aws_mem_tracer_bytes/count (concurrent, value not asserted)", op.thr); break;
         case OP_DUMP: snprintf(b, sizeof b, "T%d: aws_mem_tracer_dump (concurrent)", op.thr); break;
+        case OP_FOREIGN: snprintf(b, sizeof b, "T%d: acquire(%lld) from the wrapped allocator directly (block unknown to the tracer)", op.thr, (long long)op.a); break;
         case OP_BULK: snprintf(b, sizeof b, "T%d: acquire %lld small blocks in a row and keep them", op.thr, (long long)op.a); break;
         default: snprintf(b, sizeof b, "?");
     }
@@ -418,7 +434,7 @@ extern const Harness H_C17 = {
     "C17", "memory tracer's byte and allocation counts always equal what is live", gen, run, op_text,
     "Plans: tracer level NONE/BYTES/STACKS with 0-200 frames over a simulated allocator (immediate cross-thread address reuse, realloc moves "
     "or stays, optional vtable entries, preemption inside allocator calls), in 15% of the runs on a system whose high-resolution clock read fails; 1-4 threads x 4-100 operations of acquire / calloc / realloc (grow, "
-    "shrink, same size, to 0, from NULL) / release, blocks handed to other threads, concurrent bytes/count queries and dumps, barrier "
+    "shrink, same size, to 0, from NULL) / release, blocks obtained from the wrapped allocator behind the tracer's back and later resized or released through it, blocks handed to other threads, concurrent bytes/count queries and dumps, barrier "
     "checkpoints where bytes and count must equal the reference live set exactly and a dump must list exactly the live allocations. Distinct = "
     "sync-order fingerprint combined with plan, level and allocator behaviour; non-trivial = tracing on, at least 4 operations and "
     "(multi-threaded) a preemption on shared tracer state or (single-threaded) at least two exact checks.",
